@@ -136,7 +136,7 @@ func runC06WireCase(run *ev.Run, cs c06WireCase) {
 	// requests can no longer be matched to the targets by position. Such a case is not judged;
 	// provoked failures are the business of the other C06 cases.
 	for _, r := range got {
-		if r.Code == 0 && r.Error != "" {
+		if r.Code == 0 && c06Environmental(r.Error) {
 			run.Count("wire_cases_not_judged_unprovoked_transport_failure", 1)
 			run.Sample(map[string]any{"wire_case_not_judged": cs, "unprovoked_failure": r.Error, "results": len(got), "requests_on_the_wire": len(reqs)})
 			return
@@ -235,4 +235,17 @@ func c06Wire(c *Ctx, run *ev.Run) {
 		runC06WireCase(run, c06WireCase{MaxBody: []int64{-1, 0, 1, 100, 4999, 5000, 6000}[i%7], Chunked: i%2 == 1, Name: []string{"", "wire-attack"}[i%3%2],
 			Hits: 40, RespSize: 5000, Seed: rng.Int63()})
 	}
+}
+
+
+// c06Environmental reports whether an error text is of the kind a starved or exhausted machine
+// produces on its own (timeouts, resets, refused or closed connections). Anything else - a body
+// that ends early, a malformed response - is the exchange's own business and is judged.
+func c06Environmental(e string) bool {
+	for _, pat := range []string{"Client.Timeout", "deadline exceeded", "i/o timeout", "connection reset", "connection refused", "broken pipe", "server closed idle connection", "use of closed network connection"} {
+		if strings.Contains(e, pat) {
+			return true
+		}
+	}
+	return strings.HasSuffix(e, ": EOF") // the peer closed the connection without a word
 }
